@@ -39,11 +39,11 @@ struct RunOpts {
 	bool baseline_check = true; // C07 idle baseline after everything closed / clean exit
 	bool hygiene_check = true;  // descriptor discipline
 	bool observe = false;       // observer connection issues get + holds fetch-all, compared after every step
-	bool accounting_check = false; // C02 style: one response per id, nothing unattributable
 	bool serve_probe = true;    // a fresh connection gets an info response at the end
 	bool cap_check = true;
 	bool timer_duration_check = false; // C14
 	bool allow_timer_join = false;
+	bool accounting_check = false; // C15: never more responses with an id than requests that carried it
 	bool framing_check = false; // C10: accepted byte stream = in-order concatenation of whole generated frames
 	bool ws_check = true;      // C12/C13: handshake answers, close statuses, pongs
 	bool allow_reset_join = false; // a reset racing with deliveries to that connection is a fault (C05/C11 domain)
@@ -95,6 +95,7 @@ struct CConn {
 	bool model_dropped = false;
 	bool decode_failed = false;
 	bool is_observer = false;
+	bool is_probe = false;
 	bool ended_this_step = false;
 	bool model_connected = false; bool local = true;
 	bool poisoned = false;   // a truncated frame was sent: nothing meaningful can follow on this stream
@@ -132,6 +133,8 @@ public:
 	uint64_t next_id = 1;
 	enum Phase { START, RUN, CLOSING, PROBE, TERM, DONE } phase = START;
 	// baseline
+	long base_alloc_calls = 0;
+	std::map<std::pair<int, std::string>, long> sent_ids;
 	size_t base_alloc = 0, base_fds = 0, base_live = 0; int base_peers = 0; size_t base_timers = 0;
 	std::vector<int> base_fdset;
 	// expectations of the running step
@@ -148,7 +151,7 @@ public:
 	std::map<std::pair<int, std::string>, std::string> unfetch_reqs; // (conn, request id) -> fetch key
 	std::map<std::pair<int, std::string>, int> open_keys; // fetch requests sent minus unfetch responses seen
 	int observer = -1;
-	int probe_conn = -1;
+	int probe_conn = -1; int probe_attempts = 0; long probe_failures_seen = 0;
 	int sigterm_count = 0;
 	size_t max_alloc_seen = 0;
 	Value *batch_sink = nullptr; int batch_conn = -1;
@@ -273,6 +276,10 @@ public:
 	{
 		CConn &c = cc[ci];
 		if (batch_sink) { batch_sink->push(v); return; }
+		{
+			auto note = [&](const Value &o) { const Value *id = o.get("id"); if (o.is_obj() && o.has("method") && model::valid_id(id)) sent_ids[{ci, js::dump(*id)}]++; };
+			if (v.is_arr()) for (auto &e : v.a) note(e); else note(v);
+		}
 		std::string txt = js::dump(v);
 		deliver(c.kc, frame_for(c, txt));
 		ModelEvent e; e.k = ModelEvent::MESSAGE; e.conn = ci; e.msg = v; e.seq = evs.size();
@@ -783,7 +790,7 @@ public:
 		std::vector<std::pair<uint64_t, std::string>> learned;
 		for (int ci : conns) {
 			CConn &c = cc[ci];
-			if ((size_t)ci == (size_t)probe_conn) continue;
+			if (probe_conn >= 0 && cc[ci].is_probe) continue;
 			bool ended = c.client_ended || c.model_dropped || c.unchecked;
 			std::vector<model::Group> groups;
 			auto it = x.by_conn.find(ci);
@@ -1227,6 +1234,9 @@ public:
 	void take_baseline()
 	{
 		simk::Kernel &k = simk::K();
+		if (sc.fail_alloc >= 0) k.fail_alloc_at = k.alloc_calls + sc.fail_alloc;
+		for (int x : sc.fail_allocs) k.fail_alloc_set.push_back(k.alloc_calls + x);
+		base_alloc_calls = k.alloc_calls;
 		base_alloc = cjet_get_alloc_size(); base_peers = get_number_of_peers(); base_fdset = k.open_fds(); base_timers = k.armed_timers(); base_live = k.live_blocks();
 	}
 
@@ -1261,8 +1271,9 @@ public:
 			if (opt.serve_probe) {
 				phase = PROBE;
 				k.faults.clear(); // the probe is a healthy connection
+				probe_failures_seen = k.alloc_failed_seen;
 				probe_conn = (int)cc.size();
-				CConn c; c.transport = 0; c.kc = k.connect(simk::EP_RAW, 0); cc.push_back(c);
+				CConn c; c.transport = 0; c.is_probe = true; c.kc = k.connect(simk::EP_RAW, 0); cc.push_back(c);
 				k.send(c.kc, codec::raw_frame("{\"id\":\"probe\",\"method\":\"info\"}"));
 				return true;
 			}
@@ -1273,6 +1284,14 @@ public:
 				CConn &pc = cc[probe_conn];
 				bool ok = false;
 				for (auto &mm : pc.msgs) { const Value *id = mm.get("id"); if (id && id->is_str() && id->s == "probe" && mm.has("result")) ok = true; }
+				// an injected allocation failure may have hit the probe itself: what matters is that the daemon serves afterwards
+				if (!ok && k.alloc_failed_seen > probe_failures_seen && probe_attempts < 4) {
+					probe_attempts++; probe_failures_seen = k.alloc_failed_seen;
+					probe_conn = (int)cc.size();
+					CConn c; c.transport = 0; c.is_probe = true; c.kc = k.connect(simk::EP_RAW, 0); cc.push_back(c);
+					k.send(c.kc, codec::raw_frame("{\"id\":\"probe\",\"method\":\"info\"}"));
+					return true;
+				}
 				if (!ok) vd.add("serve/probe-unanswered", "a fresh connection got no info response at the end of the scenario");
 			}
 			if (sc.end == 1) { phase = TERM; return finish_term(); }
@@ -1311,10 +1330,25 @@ public:
 			if (cjet_get_alloc_size() != 0) vd.add("C07/accounting-nonzero-at-exit", std::to_string(cjet_get_alloc_size()));
 		}
 		if (opt.hygiene_check) for (auto &h : k.hygiene) vd.add("C07/hygiene", h);
+		if (opt.accounting_check) {
+			for (size_t ci = 0; ci < cc.size(); ci++) {
+				if (cc[ci].is_probe) continue;
+				decode((int)ci);
+				std::map<std::string, long> got;
+				for (auto &msg : cc[ci].msgs) if (msg.is_obj() && !msg.has("method") && msg.has("id")) got[js::dump(*msg.get("id"))]++;
+				for (auto &g : got) {
+					long sent = 0; auto it = sent_ids.find({(int)ci, g.first}); if (it != sent_ids.end()) sent = it->second;
+					if (g.second > sent) vd.add("C15/more-responses-than-requests", "conn " + std::to_string(ci) + " id " + g.first + ": " + std::to_string(g.second) + " responses for " + std::to_string(sent) + " request(s)");
+				}
+			}
+		}
+		vd.stat["allocs_after_baseline"] = k.alloc_calls - base_alloc_calls;
+		vd.stat["alloc_failures_hit"] = k.alloc_failed_seen;
+		if (!k.failed_alloc_site.empty()) vd.transcripts.push_back("ALLOCSITE " + k.failed_alloc_site);
 		if (opt.framing_check) framing_judge();
 		if (custom_final) custom_final(*this);
 		for (size_t ci = 0; ci < cc.size(); ci++) {
-			if ((int)ci == probe_conn) continue;
+			if (cc[ci].is_probe) continue;
 			decode((int)ci);
 			CConn &c = cc[ci];
 			std::string t = "conn" + std::to_string(ci) + (k.conns[c.kc].daemon_closed && !c.client_ended ? " closed-by-daemon" : "") + (c.ws ? " http=" + std::to_string(c.http.status) : "") + "\n";
